@@ -866,7 +866,9 @@ impl Parser {
                 let meta_right_brace = self.expect(&TokenEnum::RightBrace)?;
                 if self.next_matches(&TokenEnum::KeywordElse).is_some() {
                     if self.peek(&TokenEnum::KeywordIf) {
-                        let elseif_expr = self.parse_expr()?;
+                        // only the `if` expression itself: operators after the chain apply to the
+                        // whole chain, not to its last `else if`
+                        let elseif_expr = self.parse_if_or_match()?;
                         let meta = join_meta(meta, elseif_expr.meta);
                         Ok(Expr::untyped(
                             ExprEnum::If(
